@@ -144,7 +144,7 @@ var specC07 = &worldSpec{
 		if op.Kind == "save" && (w.Labels["fast_toggle"] || w.Labels["reopen_old"]) {
 			w.Labels["write_after_reopen"] = true
 		}
-		return nil
+		return w.checkUnloadedHandle()
 	},
 }
 
@@ -196,7 +196,7 @@ func TestC13a(t *testing.T) { runWorldSpec(t, withLevel(specC13)) }
 // ---------------------------------------------------------------- C14 version bookkeeping
 var specC14 = &worldSpec{
 	Prop: "C14",
-	Profile: &Profile{MinSteps: 15, MaxSteps: 55, W: weights(mergeW(pruneWeights, map[string]int{"reopen": 12, "save": 26})),
+	Profile: &Profile{MinSteps: 15, MaxSteps: 55, W: weights(mergeW(pruneWeights, map[string]int{"reopen": 12, "save": 26, "lvfo_invalid": 3})),
 		Backends: []string{"mem", "mem", "trace", "prefix"}},
 	Obs:  Observers{Versions: true, Fresh: true, Light: true},
 	Rule: "history of 15-55 steps (C04 profile + InitialVersion unset/1/2/7/2^33, reopen at older versions and re-commit); after every step and through a fresh handle after prune/rollback: commit numbers consecutive from 1 or InitialVersion; VersionExists(v), GetImmutable(v), GetVersioned(k,v), LoadVersion(v) on a throw-away handle for every v in {0,1} U [first-ever-1, latest+1], AvailableVersions, GetLatestVersion agree with the model range; re-commit of an existing number succeeds without effect iff the reference hashes are equal, else errors with a byte-identical store. non-trivial = >=1 prune or rollback of versions and >=1 reopen",
@@ -204,7 +204,12 @@ var specC14 = &worldSpec{
 		return (w.Labels["prune"] || w.Labels["rollback_versions"]) && w.Labels["reopen"]
 	},
 	Known: knownCommon,
-	After: func(w *World, op Op) *Violation { return w.checkLoadEach() },
+	After: func(w *World, op Op) *Violation {
+		if v := w.checkLoadEach(); v != nil {
+			return v
+		}
+		return w.checkUnloadedHandle()
+	},
 }
 
 func TestC14(t *testing.T) { runWorldSpec(t, withLevel(specC14)) }
@@ -228,7 +233,7 @@ func specC09() *worldSpec {
 	return &worldSpec{
 		Prop: "C09",
 		Profile: &Profile{MinSteps: 20, MaxSteps: 60,
-			W:        weights(map[string]int{"lvfo": 8, "dvf": 5, "rollback": 6, "reopen": 5, "prune": 5, "setnil": 0, "save": 22}),
+			W:        weights(map[string]int{"lvfo": 8, "dvf": 5, "rollback": 6, "reopen": 5, "prune": 5, "setnil": 0, "save": 22, "lvfo_invalid": 2}),
 			Backends: []string{"mem", "mem", "prefix"}},
 		Obs:  Observers{Reads: true, Hash: true, Fast: true},
 		Rule: "history of 20-60 steps with rollbacks to any retained version by LoadVersionForOverwriting or DeleteVersionsFrom + (same|fresh handle) LoadVersion, repeated / nested / after pruning, followed by further writes, commits, prunes, reopens; a twin tree on a fresh store executes only the surviving history and after every step both are compared: all reads and hashes against the model, AvailableVersions, WorkingHash, and the raw stores entry by entry (node entries byte-identical, fast entries same keys and values, label equal). Rollback() alone: all read paths (walk, fast, iterators) and WorkingHash equal the last committed version. non-trivial = the erased future contained >=1 commit that wrote nodes, a later commit re-used an erased version number, and the node cache was on (cache>0) at the rollback",
